@@ -307,13 +307,19 @@ func c02Check(ci any, o *core.Obs) {
 		// ("already split" is not required of the elements)
 		if len(ps) >= 2 {
 			var merged canvas.Paths
-			for i := 0; i < len(ps); i++ {
-				if i%4 == 0 && i+1 < len(ps) {
-					merged = append(merged, pathFrom(append(append([]float64(nil), ps[i].Data()...), ps[i+1].Data()...)))
-					i++
-				} else {
-					merged = append(merged, ps[i])
+			// groups of 3, 2, 1, 4, ... neighbouring sub-paths
+			sizes := []int{3, 2, 1, 4}
+			for i, g := 0, 0; i < len(ps); g++ {
+				n := sizes[g%len(sizes)]
+				if i+n > len(ps) {
+					n = len(ps) - i
 				}
+				var d []float64
+				for k := 0; k < n; k++ {
+					d = append(d, ps[i+k].Data()...)
+				}
+				merged = append(merged, pathFrom(d))
+				i += n
 			}
 			ps = merged
 		}
